@@ -190,8 +190,20 @@ def settledOk (x : PX) : Bool :=
   -- timely, approved by the user at a moment when no hello message was under way: both completed
   (!(timely x && x.approved && !x.approvedEarly && idsOk x && !x.cancelled) || bothCompleted x)
 
+def _root_.ShipVerif.Conn.St.isLocalAbort : St → Bool | .hAbort | .hAbortDone => true | _ => false
+def _root_.ShipVerif.Conn.St.gaveUp : St → Bool
+  | .hAbort | .hAbortDone | .hRemoteAbortDone | .hRejected | .error => true
+  | _ => false
+/-- the client side is no longer waiting for the server's decision -/
+def clientGone (x : PX) : Bool := x.p.c.wsClosed || x.p.c.once || x.p.c.st.gaveUp
+
+/-- a pending request is kept: with waiting allowed and no cancellation the server does not abort by itself while
+    the client is still waiting (timely mode) -/
+def pendingKept (x : PX) : Bool :=
+  !(timely x && x.p.envS.allow && !x.cancelled && x.p.s.st.isLocalAbort) || clientGone x
+
 /-- the facts that concern every state -/
-def alwaysOk (x : PX) : Bool :=
+def alwaysOkCore (x : PX) : Bool :=
   -- no trust (not paired, no auto-accept, no approval): nobody completes, nobody is set up
   (!(!trustedBefore x && !x.approved) || (!x.p.c.st.isComplete && !x.p.s.st.isComplete && x.setC.isZero && x.setS.isZero)) &&
   -- an id that does not match what is stored: that side never completes
@@ -202,6 +214,8 @@ def alwaysOk (x : PX) : Bool :=
   (!x.p.s.st.isComplete || (x.setS.isOne && x.p.relS.isSame)) &&
   -- the streams stay short
   (decide (x.p.qcs.length ≤ 5) && decide (x.p.qsc.length ≤ 5))
+
+def alwaysOk (x : PX) : Bool := alwaysOkCore x && pendingKept x
 
 /-- the facts of C03, as a decidable predicate on one state -/
 def propsOk (x : PX) : Bool :=
